@@ -125,3 +125,85 @@ def _lsc(spec, with_region):
 
 LSC1 = _lsc("region-r1", True)
 LSC2 = _lsc("no-region-r1", False)
+
+
+# ---------------------------------------------------------------------------
+# which scheduler runs the writes: in-memory targets must be written in this process
+# ---------------------------------------------------------------------------
+def _ext_nonlocal(ex, st, args, kwargs, node):
+    """_nonlocal_scheduler_active(): some boolean (read from dask's configuration)"""
+    v = ex.fresh_value("bool", "nonlocal_scheduler")
+    st.env["__nonlocal__"] = v
+    return v
+
+
+def _ndarray_flags(targets):
+    from pyvc.spec import TupV
+    out = []
+    for t in (targets.items if isinstance(targets, TupV) else targets):
+        f = t.fields.get("__isinstance_np.ndarray")
+        out.append(f.t if f is not None else None)
+    return out
+
+
+def _force_local(ntargets):
+    @contract(f"{ST}::_force_local_store_scheduler", spec=f"{ntargets}-targets", props=["C25"])
+    class force_local_store_scheduler:
+        """store runs its writes on a local scheduler exactly when the caller chose none, the ambient scheduler would
+        serialise the targets, and SOME target is an in-memory NumPy array (one is enough: its in-place write would
+        otherwise land in a pickled copy and the caller's array would silently stay untouched)"""
+        params = {"targets": "tup:" + ",".join(["obj:Tgt"] * ntargets), "scheduler": "optint"}
+        result = "bool"
+        fields = {"Tgt": {}, "__maybe__": {"Tgt": ["np.ndarray"]}}
+        externals = {"_nonlocal_scheduler_active": _ext_nonlocal}
+
+        def requires(targets, scheduler):
+            return True
+
+        def ensures(result, targets, scheduler, env=None, calls=None):
+            from pyvc.spec import TupV
+            if isinstance(targets, TupV):
+                flags = _ndarray_flags(targets)
+                some = S.Or(*[f for f in flags if f is not None]) if any(f is not None for f in flags) else False
+                nonlocal_ = getattr(env, "__nonlocal__", None) if env is not None else None
+                try:
+                    nonlocal_ = env.__getattr__("__nonlocal__")
+                except Exception:
+                    nonlocal_ = None
+                if nonlocal_ is None:
+                    return {"local-scheduler-exactly-when-needed": S.And(S.Not(result), S.Not(S.is_none(scheduler)))}
+                return {"local-scheduler-exactly-when-needed": S.Iff(result, S.And(S.is_none(scheduler), nonlocal_, some))}
+            sched_kw, ambient, kinds = force_local_store_scheduler._concrete(targets, scheduler)
+            want = sched_kw is None and ambient in ("processes", "multiprocessing") and any(kinds)
+            return {"local-scheduler-exactly-when-needed": bool(result) == want}
+
+        def _concrete(targets, scheduler):
+            """bounded inputs are (scheduler keyword, ambient scheduler, which targets are ndarrays); a replayed
+            counter-model has records for the targets and None / an int for the keyword (ambient: a process pool)"""
+            if isinstance(scheduler, tuple):
+                return scheduler
+            kinds = tuple(bool(getattr(t, "__isinstance_np.ndarray", False)) for t in targets)
+            return (None if scheduler is None else "threads"), "processes", kinds
+
+        def call(fn, targets, scheduler):
+            import numpy as np
+            import dask
+            sched_kw, ambient, kinds = force_local_store_scheduler._concrete(targets, scheduler)
+            tg = [np.zeros(2) if k else object() for k in kinds]
+            with dask.config.set(scheduler=ambient):
+                return fn(tg, sched_kw)
+
+        def domain(tier, rng):
+            import itertools
+            for kinds in itertools.product((False, True), repeat=ntargets):
+                for ambient in (None, "threads", "sync", "processes"):
+                    for sched_kw in (None, "threads"):
+                        yield {"targets": None, "scheduler": (sched_kw, ambient, kinds)}
+
+    force_local_store_scheduler.__name__ = f"force_local_store_scheduler_{ntargets}"
+    return force_local_store_scheduler
+
+
+FL1 = _force_local(1)
+FL2 = _force_local(2)
+FL3 = _force_local(3)
